@@ -57,7 +57,10 @@ CORNER_STATEMENTS = [
     "@print pvns.T0.1.0", "@print pvns.T0.1.0._extent_", "@print pvns.T0.1.0.NOPE", "@print pvns.T0.1.0._bit_length_ | {7}",
     "pvns.Svc.1.0 s", "Svc.1.0[2] s", "pvns.Svc.1.0[<=3] s", "@print pvns.Svc.1.0._extent_", "@print pvns.Svc.1.0._bit_length_", "@print pvns.Svc.1.0",
     "@print pvns.Svc.1.0 == pvns.Svc.1.0", "@print {pvns.Svc.1.0}", "@union\npvns.Svc.1.0 a\nuint8 b", "@print pvns.Svc.1.0.a", "@print pvns.Svc.Request.1.0",
-    "@print pvns.T0.2.0", "@print pvns.T0.1.0.1.0", "@print T0.1.0", "@print pvns.t0.1.0", "@print pvns.Main.1.0", "pvns.Main.1.0 me",
+    "@print pvns.T0.2.0", "@print pvns.T0.1.0.1.0",
+    # an existing name and major version with a minor version that does not exist (newer than all, older than all, in between)
+    "pvns.T0.1.1 newer", "pvns.T0.1.255 newer", "@print pvns.T0.1.7", "pvns.T0.1.1[<=2] newer", "pvns.Svc.1.9 s", "@print pvns.Svc.1.1._extent_", "pvns.T0.1.256 newer",
+    "pvns.T0.0.1 older", "pvns.T0.0.0 older", "@assert pvns.T0.1.2._extent_ > 0", "@print T0.1.0", "@print pvns.t0.1.0", "@print pvns.Main.1.0", "pvns.Main.1.0 me",
     "@foo", "@", "@ print 1", "@print", "@assert", "@assert 1", "@assert 'true'", "@print 1 2", "@print (", "@print )", "@print (1",
     "@print " + "(" * 16 + "1" + ")" * 16, "@print " + "{" * 12 + "1" + "}" * 12, "@print " + "!" * 16 + "true", "@print " + "-(" * 15 + "1" + ")" * 15,
     "@print 1" + " + 1" * 200, "@print '" + "a" * 1500 + "'", "uint8 " + "a" * 300, "uint8 _a_", "uint8 uint8", "uint8 optional", "uint8 CON",
